@@ -7,7 +7,7 @@ import sys
 import time
 from pathlib import Path
 
-VERIF = Path("/verif")
+VERIF = Path(__file__).resolve().parent.parent      # /verif, or a snapshot of it (vp run)
 REPO = Path(os.environ.get("PGVERIF_REPO", "/repo"))   # the override is a development aid (seeded changes in scratch worktrees)
 SPEC = VERIF / "spec"
 EVIDENCE = Path(os.environ.get("PGVERIF_EVIDENCE", VERIF / "evidence"))
